@@ -1,8 +1,10 @@
 #!/bin/sh
 # usage: tools/harmless_sweep.sh <patch.diff>...   -- semantics-preserving edits must keep every check quiet (exit 0) or at worst UNDECIDED (exit 2)
+ARGS=""; for a in "$@"; do ARGS="$ARGS $(readlink -f "$a")"; done; set -- $ARGS
 cd /verif
 rm -rf /tmp/evidence_keep && cp -r /verif/evidence /tmp/evidence_keep
 for p in "$@"; do
+  p=$(readlink -f "$p")
   if ! git -C /repo apply --check "$p" 2>/dev/null; then echo "$p: patch does not apply"; continue; fi
   git -C /repo apply "$p"
   res=""
